@@ -1,7 +1,9 @@
 package work
 
 import (
+	"bufio"
 	"fmt"
+	"io"
 	"math/rand"
 	"reflect"
 	"runtime"
@@ -77,6 +79,8 @@ func (c17) Cases(tier string, seed int64, kf *KnownFindings) []Case {
 		add(Case{Kind: "abandon", K: ctor, N: 4, Count: 6})
 		add(Case{Kind: "dropped", K: ctor, N: 0, Count: 5})
 		add(Case{Kind: "dropped", K: ctor, N: 2, Count: 5})
+		add(Case{Kind: "pending", K: ctor, N: 0, Count: 4})
+		add(Case{Kind: "pending", K: ctor, N: 2, Count: 4})
 	}
 	return cs
 }
@@ -543,6 +547,8 @@ func (c17) Run(c Case, env *Env) Result {
 		c17abandon(c, env, &res, viol, tm, nm)
 	case "dropped":
 		c17dropped(c, env, &res, viol, tm, nm)
+	case "pending":
+		c17pending(c, env, &res, viol, tm, nm)
 	case "fresh":
 		p := newPool(c.K, 0, tm, nm)
 		for i := 0; i < 5; i++ {
@@ -1004,4 +1010,87 @@ func c17dropped(c Case, env *Env, res *Result, viol func(string, string), tm map
 	runtime.KeepAlive(p)
 	res.NT = append(res.NT, Hash64(fmt.Sprint("dropped", c.K, c.N)), Hash64(fmt.Sprint("dropped2", c.K, c.N)))
 	res.Count("objects_dropped_on_a_full_pool_and_collected", got)
+}
+
+// gateReader hands out its bytes; a Read after they are used up signals `entered` and waits for the gate
+// (a connection on which the peer has sent nothing more yet).
+type gateReader struct {
+	b       []byte
+	off     int
+	entered chan struct{}
+	gate    chan struct{}
+	once    bool
+}
+
+func (g *gateReader) Read(p []byte) (int, error) {
+	if g.off >= len(g.b) {
+		if !g.once {
+			g.once = true
+			close(g.entered)
+		}
+		<-g.gate
+		return 0, io.EOF
+	}
+	n := copy(p, g.b[g.off:])
+	g.off += n
+	return n, nil
+}
+
+// c17pending: the object comes back from a holder whose stream is still pending - bytes sitting in the holder's
+// bufio.Writer over a sink that takes nothing at the moment, a reader on which the peer has sent nothing more.
+// Return (and the next Get) must complete without touching the holder's stream. Decided by events: the call
+// runs on a second goroutine and this one waits for "call returned" or "the sink / source was entered".
+func c17pending(c Case, env *Env, res *Result, viol func(string, string), tm map[string]reflect.Type, nm map[string]string) {
+	wire, _ := hspec.Encode(hspec.Int(7), hspec.Canonical{}, hspec.EncOpts{})
+	for j := 0; j < c.Count; j++ {
+		p := newPool(c.K, c.N, tm, copyNames(nm))
+		for k := 0; k < j%3; k++ { // some idle objects next to it
+			p.Return(p.Get())
+		}
+		o := p.Get()
+		sink := &gateWriter{k: 1, entered: make(chan struct{}), gate: make(chan struct{})}
+		src := &gateReader{b: wire, entered: make(chan struct{}), gate: make(chan struct{})}
+		bw := bufio.NewWriterSize(sink, 4096)
+		Guard(func() {
+			switch t := o.(type) {
+			case *hessian.Encoder:
+				t.WriteTo(bw, "hello")
+				if j%2 == 1 {
+					t.WriteObject(int32(j))
+				}
+			case *hessian.Decoder:
+				t.ReadFrom(bufio.NewReader(src))
+			case hessian.Serializer:
+				t.WriteTo(bw, "hello")
+				t.ReadFrom(bufio.NewReader(src))
+			}
+		})
+		res.Evals++
+		res.NT = append(res.NT, Hash64(fmt.Sprint("pending", c.K, c.N, j)))
+		if sink.calls > 0 || src.once {
+			res.Inconclusive = append(res.Inconclusive, "the holder's own use already reached the stalled sink / source")
+			close(sink.gate)
+			close(src.gate)
+			continue
+		}
+		for step, call := range []func(){func() { p.Return(o) }, func() { p.Get() }} {
+			done := make(chan struct{})
+			go func() { call(); close(done) }()
+			what := []string{"Return", "the Get after it"}[step]
+			select {
+			case <-done:
+				res.Count("calls_completed_with_a_pending_holder_stream", 1)
+			case <-sink.entered:
+				viol("blocks", fmt.Sprintf("%s on a %s of size %d is waiting inside Write of the last holder's writer (bytes pending in the holder's bufio.Writer, sink stalled)", what, ctorNames[c.K], c.N))
+				close(sink.gate)
+				<-done
+				sink.entered = make(chan struct{})
+			case <-src.entered:
+				viol("blocks", fmt.Sprintf("%s on a %s of size %d is waiting inside Read of the last holder's reader", what, ctorNames[c.K], c.N))
+				close(src.gate)
+				<-done
+				src.entered = make(chan struct{})
+			}
+		}
+	}
 }
